@@ -1,5 +1,7 @@
 /* --wrap shims recording the ?gscon / ?lacon / sp_?trsv protocol (linked into drv_api only). */
 #include "slu_mt_ddefs.h"
+#include "slu_scomplex.h"
+#include "slu_dcomplex.h"
 extern void vrt_emit(const char *name, int p, int nargs, const long *args);
 
 /* ------------------------------------------------------------------ reverse-communication estimator and its callers
@@ -27,3 +29,27 @@ void __wrap_##P##gscon(char *norm, void *L, void *U, RT anorm, RT *rcond, int_t 
 { long a[1]; a[0] = (norm[0] == '1' || norm[0] == 'O' || norm[0] == 'o') ? 1 : 2; vrt_emit("GsconBegin", -1, 1, a); \
   __real_##P##gscon(norm, L, U, anorm, rcond, info); vrt_emit("GsconEnd", -1, 1, a); }
 WRAP_GSCON(s, float) WRAP_GSCON(d, double) WRAP_GSCON(c, float) WRAP_GSCON(z, double)
+
+/* ------------------------------------------------------------------ iterative refinement (?gsrfs): SluRefine.tla
+ * RfsBegin(trans, nrhs, n) ... RfsEnd bracket the routine; inside, every sp_?gemv (Gemv trans), ?gstrs (Gstrs trans) and
+ * ?lacon call (Lacon, above) is recorded.  ?gstrs and sp_?gemv are also called from elsewhere: the consumer
+ * (lib/lacon.py) only looks at the events between RfsBegin and RfsEnd. */
+static long tcode(int c) { return (c == 'N' || c == 'n') ? 0 : ((c == 'T' || c == 't') ? 1 : 2); }
+#define WRAP_GSRFS(P, RT) \
+extern void __real_##P##gsrfs(trans_t, SuperMatrix *, SuperMatrix *, SuperMatrix *, int_t *, int_t *, equed_t, RT *, RT *, SuperMatrix *, SuperMatrix *, RT *, RT *, Gstat_t *, int_t *); \
+void __wrap_##P##gsrfs(trans_t trans, SuperMatrix *A, SuperMatrix *L, SuperMatrix *U, int_t *perm_r, int_t *perm_c, equed_t equed, RT *R, RT *C, \
+		       SuperMatrix *B, SuperMatrix *X, RT *ferr, RT *berr, Gstat_t *G, int_t *info) \
+{ long a[3]; a[0] = (long) trans; a[1] = B ? B->ncol : -1; a[2] = A ? A->nrow : -1; vrt_emit("RfsBegin", -1, 3, a); \
+  __real_##P##gsrfs(trans, A, L, U, perm_r, perm_c, equed, R, C, B, X, ferr, berr, G, info); a[1] = *info; vrt_emit("RfsEnd", -1, 2, a); } \
+extern void __real_##P##gstrs(trans_t, SuperMatrix *, SuperMatrix *, int_t *, int_t *, SuperMatrix *, Gstat_t *, int_t *); \
+void __wrap_##P##gstrs(trans_t trans, SuperMatrix *L, SuperMatrix *U, int_t *perm_r, int_t *perm_c, SuperMatrix *B, Gstat_t *G, int_t *info) \
+{ long a[2]; a[0] = (long) trans; a[1] = B ? B->ncol : -1; vrt_emit("Gstrs", -1, 2, a); __real_##P##gstrs(trans, L, U, perm_r, perm_c, B, G, info); }
+WRAP_GSRFS(s, float) WRAP_GSRFS(d, double) WRAP_GSRFS(c, float) WRAP_GSRFS(z, double)
+extern int_t __real_sp_sgemv(char *, float, SuperMatrix *, float *, int_t, float, float *, int_t);
+int_t __wrap_sp_sgemv(char *t, float al, SuperMatrix *A, float *x, int_t ix, float be, float *y, int_t iy) { long a[1]; a[0] = tcode(t[0]); vrt_emit("Gemv", -1, 1, a); return __real_sp_sgemv(t, al, A, x, ix, be, y, iy); }
+extern int_t __real_sp_dgemv(char *, double, SuperMatrix *, double *, int_t, double, double *, int_t);
+int_t __wrap_sp_dgemv(char *t, double al, SuperMatrix *A, double *x, int_t ix, double be, double *y, int_t iy) { long a[1]; a[0] = tcode(t[0]); vrt_emit("Gemv", -1, 1, a); return __real_sp_dgemv(t, al, A, x, ix, be, y, iy); }
+extern int_t __real_sp_cgemv(char *, complex, SuperMatrix *, complex *, int_t, complex, complex *, int_t);
+int_t __wrap_sp_cgemv(char *t, complex al, SuperMatrix *A, complex *x, int_t ix, complex be, complex *y, int_t iy) { long a[1]; a[0] = tcode(t[0]); vrt_emit("Gemv", -1, 1, a); return __real_sp_cgemv(t, al, A, x, ix, be, y, iy); }
+extern int_t __real_sp_zgemv(char *, doublecomplex, SuperMatrix *, doublecomplex *, int_t, doublecomplex, doublecomplex *, int_t);
+int_t __wrap_sp_zgemv(char *t, doublecomplex al, SuperMatrix *A, doublecomplex *x, int_t ix, doublecomplex be, doublecomplex *y, int_t iy) { long a[1]; a[0] = tcode(t[0]); vrt_emit("Gemv", -1, 1, a); return __real_sp_zgemv(t, al, A, x, ix, be, y, iy); }
